@@ -166,8 +166,12 @@ def run(facts, cg):
     for b in facts.bodies.values():
         if b.generated or not b.id.startswith('bitar::archive::'):
             continue
-        for bi, t in b.calls():
-            for a in t['args']:
+        ctor_sites = [(bi, t['loc'], a) for bi, t in b.calls() for a in t['args']]
+        ctor_sites += [(bi, st['loc'], st['rv']['op']) for bi in b.live for st in b.blocks[bi]['stmts']
+                       if st['k'] == 'assign' and st['rv']['k'] in ('use', 'cast') and st['rv']['op'].get('k') == 'const']
+        for bi, loc_, a in ctor_sites:
+            t = {'loc': loc_}
+            for a in [a]:
                 if a.get('k') == 'const' and a.get('fn') and '::{constructor' in a['fn'] and a['fn'].startswith(CONFIG + '::'):
                     vname = a['fn'][len(CONFIG) + 2:].split('::')[0]
                     want = [v for v, n in ALGO_VALUE.items() if n == vname]
